@@ -22,6 +22,11 @@
     * `kahn_determinate`, `bond_channel_determinate` — schedule (= stall pattern) independence of
       networks of deterministic agents whose steps commute, instantiated with the blocking-IO
       producer / one-place channel with fan-out / consumers network.
+    * `isa_step_is_product`, `isa_bond_projects`, `isa_bond_run_projects`, `isa_bond_invariant`,
+      `rtl_bond_projects`, `rtl_bond_run_projects` — one tick of `Bm.isaStep` / one clock of
+      `Bm.rtlCycle`, seen through any processor-to-processor bond, IS one step of C04's handshake
+      model `Hs.Isa` / `Hs.Rtl` under the schedule read off the pcs; every run projects onto a run of
+      that model and inherits its invariant (control level: valid / recv / deferred / waitsm / pcs);
     * `port_reuse_safe_always` — with the repaired handshake neither world ever meets the C04
       signature, so the hypothesis `PortReuseSafe` of the stream statement is void.
     * `ref_determinate` — the reference (blocking-IO network) semantics `Bm.refNet` of EVERY machine
@@ -29,8 +34,10 @@
       `Bm.runIsa` and `Bm.runRtl` are prefix-comparable on every external output PROVIDED each
       world refines that network (named hypotheses `IsaRefines`, `RtlRefines`).
   NOT proved (kept visible as `stream_eq_full : Prop`, and `IsaRefines` / `RtlRefines`): that the two
-  concrete worlds do refine the network (C04's handshake invariant per bond + C01's per-processor
-  refinement for i2rw / r2owa, composed over the graph).  The statement and both refinement
+  concrete worlds do refine the network.  Missing between the proved bond projections and the
+  refinements: the ghost value log on a bond (C04's model numbers the values), the environment's own
+  ports (zero-latency agents, not `Hs` agents), and the composition of the per-bond runs into one
+  schedule of the network (docs/C02.md).  The statement and both refinement
   hypotheses are tested on every run: simulator vs hardware on the implementation and on the
   models, and both against a round-robin run of the reference network.
 -/
